@@ -128,9 +128,9 @@ func main() {
 	os.Exit(run(*prop, def, *tier, *root, seed, *dump, *noSelf, *noEv, wantKey))
 }
 
-// runAll is the sweep mode used by tools/mutsweep.py: one load, every property.
+// runAll is the sweep mode used by tools/mutsweep.py: one load (two when the tree has new helpers), every property.
 func runAll(root string) int {
-	p, err := loadProg(root, defaultConfig)
+	p, err := loadProgView(root, defaultConfig, true)
 	if err != nil {
 		fmt.Println("CHECKER-ERROR", firstLine(err.Error()))
 		return 2
@@ -139,12 +139,18 @@ func runAll(root string) int {
 		fmt.Println("CHECKER-ERROR", firstLine(err.Error()))
 		return 2
 	}
+	var p2 *Prog
+	if p.Inlined > 0 {
+		p2, err = loadProgView(root, defaultConfig, false)
+		if err != nil {
+			p2 = nil
+		}
+	}
 	var ids []string
 	for id := range props {
 		ids = append(ids, id)
 	}
 	sort.Strings(ids)
-	gp = p
 	for _, id := range ids {
 		func() {
 			defer func() {
@@ -152,11 +158,30 @@ func runAll(root string) int {
 					fmt.Printf("FAILKEY %s analyser-panic|%v\n", id, r)
 				}
 			}()
-			c := newChecker(p, id, "quick")
-			for _, r := range props[id].Rules {
-				r(c)
+			runOn := func(p *Prog) *Checker {
+				gp = p
+				c := newChecker(p, id, "quick")
+				for _, r := range props[id].Rules {
+					r(c)
+				}
+				c.applyFloors()
+				return c
 			}
-			c.applyFloors()
+			c := runOn(p)
+			if p2 != nil {
+				var c2 *Checker
+				func() {
+					defer func() {
+						if r := recover(); r != nil {
+							c2 = nil
+						}
+					}()
+					c2 = runOn(p2)
+				}()
+				if c2 != nil {
+					c = mergeViews(c, c2)
+				}
+			}
 			seen := map[string]bool{}
 			for _, o := range c.Obls {
 				k := o.Rule + "|" + o.Key
@@ -182,26 +207,91 @@ func flagSet(name string) bool {
 }
 
 // analyse runs a property's rules on one tree under one configuration.
+//
+// A tree that contains functions the reference tree does not have is analysed
+// in two equivalent forms: with those functions inlined into their callers,
+// and as written. A rule all of whose obligations are discharged in one of the
+// forms is discharged (the two forms are the same program; what is shown for
+// one holds for the other); a rule that fails in both is reported from the
+// form in which fewer of its obligations fail.
 func analyse(prop string, def *propDef, tier, root string, bc BuildConfig) (c *Checker, err error) {
 	defer func() {
 		if r := recover(); r != nil {
 			err = cerrf("analyser panic under %s: %v\n%s", bc.Name, r, debug.Stack())
 		}
 	}()
-	p, err := loadProg(root, bc)
+	runOn := func(p *Prog) (*Checker, error) {
+		if err := closedWorld(p); err != nil {
+			return nil, err
+		}
+		c := newChecker(p, prop, tier)
+		gp = p
+		for _, r := range def.Rules {
+			r(c)
+		}
+		c.applyFloors()
+		return c, nil
+	}
+	p, err := loadProgView(root, bc, true)
 	if err != nil {
 		return nil, err
 	}
-	if err := closedWorld(p); err != nil {
+	c, err = runOn(p)
+	if err != nil || p.Inlined == 0 {
+		return c, err
+	}
+	p2, err := loadProgView(root, bc, false)
+	if err != nil {
 		return nil, err
 	}
-	c = newChecker(p, prop, tier)
-	gp = p
-	for _, r := range def.Rules {
-		r(c)
+	var c2 *Checker
+	func() {
+		defer func() {
+			if r := recover(); r != nil {
+				c2 = nil // the as-written form is an extra: a rule that cannot cope with it does not get its benefit
+			}
+		}()
+		c2, err = runOn(p2)
+	}()
+	if err != nil || c2 == nil {
+		return c, nil
 	}
-	c.applyFloors()
-	return c, nil
+	return mergeViews(c, c2), nil
+}
+
+// mergeViews: see analyse. a is the form with new helpers inlined, b the program as written.
+func mergeViews(a, b *Checker) *Checker {
+	fails := func(c *Checker) map[string]int {
+		m := map[string]int{}
+		for _, o := range c.Obls {
+			if !o.OK {
+				m[o.Rule]++
+			}
+		}
+		return m
+	}
+	fa, fb := fails(a), fails(b)
+	useB := map[string]bool{}
+	for _, r := range a.ruleOrder {
+		switch {
+		case fa[r] == 0:
+		case fb[r] == 0, fb[r] < fa[r]:
+			useB[r] = true
+		}
+	}
+	out := *a
+	out.Obls = nil
+	for _, o := range a.Obls {
+		if !useB[o.Rule] {
+			out.Obls = append(out.Obls, o)
+		}
+	}
+	for _, o := range b.Obls {
+		if useB[o.Rule] {
+			out.Obls = append(out.Obls, o)
+		}
+	}
+	return &out
 }
 
 func run(prop string, def *propDef, tier, root string, seed int64, dump, noSelf, noEv bool, wantKey string) int {
